@@ -206,7 +206,7 @@ def conclude(pid, violations, known):
                 print(f'KNOWN-FINDING: property={pid} {sig} {known[sig]}', flush=True)
             continue
         print(f"VIOLATION property={pid} replay={v['replay']}", flush=True)
-        print(f"  signature={sig} :: {v.get('what', '')}", flush=True)
+        print(f"  signature={sig} :: {str(v.get('what', ''))[:400]}", flush=True)
         code = 1
     return code
 
